@@ -21,7 +21,7 @@ RULE = ('cases 0..255: one weight each (exhaustive sweep every run) through prio
         'far-future ids of both parities delivered to a client or server in connection states idle and open, followed by a '
         'differential continuation against a twin that did not receive them; non-trivial = round trip compared or neutrality '
         'judged; distinct = hash of the case parameters')
-MINIMA = {'roundtrip_prioritize_checked': 256, 'roundtrip_headers_checked': 256, 'refusals_checked': 500, 'self_dependent_frames_judged': 100, 'follow_up_calls_compared_after_refusal': 500,
+MINIMA = {'roundtrip_prioritize_checked': 256, 'roundtrip_headers_checked': 256, 'refusals_checked': 500, 'server_priority_on_own_pushed_stream_checked': 200, 'self_dependent_frames_judged': 100, 'follow_up_calls_compared_after_refusal': 500,
           'priority_frames_neutrality_checked': 3000, 'differential_continuations': 600, 'idle_connection_priority_cases': 150, 'roundtrip_headers_near_frame_size': 200}
 
 
@@ -142,6 +142,25 @@ def refusals(rng, rep):
             return
         if not isinstance(res.exc, h2.exceptions.H2Error):
             rep.violation('C23:server-priority-raises-' + type(res.exc).__name__, repr(res.exc), {'call': [op, kw]})
+            return
+    # ... and the same on a stream the server itself has promised (an id of its own): still no priority from a server
+    for kw in ({'priority_weight': rng.choice([1, 16, 256])}, {'priority_depends_on': 0}, {'priority_exclusive': True},
+               {'priority_weight': 5, 'priority_depends_on': 1, 'priority_exclusive': False}):
+        h3 = scen.Hostile(False, keep_log=True)
+        s3 = h3.open_stream()
+        pid = h3.e_next
+        if not h3.t.call('push_stream', s3, pid, REQ).ok:
+            continue
+        res = h3.t.call('send_headers', pid, RESP, **kw)
+        rep.count('refusals_checked')
+        rep.count('server_priority_on_own_pushed_stream_checked')
+        if res.exc is None or res.frames:
+            rep.violation('C23:server-priority-accepted:send_headers-on-pushed-stream', 'server send_headers(%d, %s) on its own pushed stream '
+                          'returned normally / emitted %s' % (pid, kw, [f.name for f in res.frames]), {'call': ['send_headers', str(kw)]})
+            return
+        res = h3.t.call('prioritize', pid, weight=7)
+        if res.exc is None or res.frames:
+            rep.violation('C23:server-priority-accepted:prioritize-on-pushed-stream', 'server prioritize(%d) returned normally' % pid, {})
             return
     # client side invalid values
     for w in (0, 257, -1, 300, rng.choice([1000, -100])):
